@@ -3,6 +3,7 @@ package props
 import (
 	"fmt"
 	"reflect"
+	"runtime"
 	"strings"
 	"sync"
 	"sync/atomic"
@@ -63,7 +64,7 @@ func c12(r *rep.Run) {
 		max = 7
 		r.SetBudget(1800e9)
 	}
-	r.Rule = "every program up to the node bound over an alphabet with unary/binary/ternary registered operators and fast/binary/n-ary builtins x 16 optimisation subsets x {ReportEvent, Debug} x every binding incl. fetch failures x {Eval, TryEval}; events are read only AFTER the evaluation has finished and are kept and re-read after the NEXT evaluation of the same compiled program (the most retentive consumer). Oracles: result and Dump equal the event-free compilation; OP_EXEC events of registered operators equal the harness's own call log taken at call time (name, arguments, result, error, order); OP_EXEC events of builtins other than and/or equal the application sequence of reference evaluation (R1) of the Dump tree (Eval mode); every OP_EXEC event is truthful (Res/Err is what the operator gives on Params); LOOP positions strictly increase; no two events' Stack/Params slices share memory; every value on a LOOP stack was produced earlier in this evaluation. Plus: a scribbling synchronous consumer must not change results, and every consumer timing (scheduler: consumer takes each event at any callback point after its emission) sees the ground truth. non-trivial = executions with at least two OP_EXEC events"
+	r.Rule = "every program up to the node bound over an alphabet with unary/binary/ternary registered operators and fast/binary/n-ary builtins x 16 optimisation subsets x {ReportEvent, Debug} x every binding incl. fetch failures x {Eval, TryEval}; events are read only AFTER the evaluation has finished and are kept and re-read after the NEXT evaluation of the same compiled program (the most retentive consumer). Oracles: result and Dump equal the event-free compilation; OP_EXEC events of registered operators equal the harness's own call log taken at call time (name, arguments, result, error, order); OP_EXEC events of builtins other than and/or equal the application sequence of reference evaluation (R1) of the Dump tree (Eval mode); every OP_EXEC event is truthful (Res/Err is what the operator gives on Params); LOOP positions strictly increase; no two events' Stack/Params slices share memory; every value on a LOOP stack was produced earlier in this evaluation. Plus: a scribbling synchronous consumer must not change results, and every consumer timing (scheduler: consumer takes each event at any callback point after its emission) sees the ground truth; the slowest consumer on channels of capacity 0..3 (takes one event only when the evaluator is blocked in its send) receives every event; contexts built by NewCtxFromVars (each single variable left unbound, undefined-variable mode off/on) give the same outcome with and without events. non-trivial = executions with at least two OP_EXEC events"
 	r.Assume = []string{"IsFastOp and the exact set of LOOP events are not asserted (the statement does not define them)",
 		"consumer timings below callback granularity are represented by the two extremes: reading at the very end (exhaustive) and a free-running scribbling synchronous consumer (auxiliary)"}
 	r.Cov["bounds"] = map[string]int{"max_nodes": max}
@@ -365,6 +366,8 @@ func c12(r *rep.Run) {
 	c12Scribble(r)
 	fmt.Printf("scribble done at %.1fs\n", time.Since(r.Start).Seconds())
 	c12Schedules(r)
+	c12SlowConsumer(r)
+	c12LibraryCtx(r)
 	fmt.Printf("schedules done at %.1fs\n", time.Since(r.Start).Seconds())
 	r.Finish()
 }
@@ -640,4 +643,190 @@ func c12Schedules(r *rep.Run) {
 	r.Cov["consumer_timing_schedules"] = schedules
 	r.Add(schedules, points, schedules, schedules, 0)
 	r.Sample(12, map[string]interface{}{"consumer_timing_harness": corpus[0].src, "note": "consumer thread takes each event at every possible callback point after its emission"})
+}
+
+// goid parses the current goroutine's id from its stack header.
+func goid() string {
+	buf := make([]byte, 64)
+	buf = buf[:runtime.Stack(buf, false)]
+	f := strings.Fields(string(buf))
+	if len(f) >= 2 {
+		return f[1]
+	}
+	return "?"
+}
+
+// goState returns the scheduler state of goroutine id ("chan send",
+// "running", ...), or "" if it no longer exists.
+func goState(id string) string {
+	buf := make([]byte, 1<<20)
+	buf = buf[:runtime.Stack(buf, true)]
+	marker := "goroutine " + id + " ["
+	i := strings.Index(string(buf), marker)
+	if i < 0 {
+		return ""
+	}
+	rest := string(buf[i+len(marker):])
+	if j := strings.IndexAny(rest, "],"); j >= 0 {
+		return rest[:j]
+	}
+	return rest
+}
+
+// c12SlowConsumer: the slowest possible consumer on a SMALL channel
+// (capacity 0..3): it takes one event only when the evaluating goroutine is
+// blocked in its channel send (observed through the runtime's goroutine
+// state, no clock involved) or has finished. Every event must still arrive,
+// in order and with the contents the unconstrained run delivered.
+func c12SlowConsumer(r *rep.Run) {
+	h := drive.NewHarness()
+	var runs, blockedSends int64
+	for _, p := range c12Corpus() {
+		for mode := 0; mode < 2; mode++ {
+			one := func(capacity int) ([]string, drive.Out, bool) {
+				cfg := h.NewConfig(p.vars, p.opt)
+				e, err := h.Compile(cfg, p.src, capacity)
+				if err != nil {
+					r.Violate("compile", p.src, sprintf("corpus program does not compile with events: %v", err), nil)
+					return nil, drive.Out{}, false
+				}
+				f := drive.NewFetcher(h, p.vars, p.opt)
+				copy(f.Vals, p.vals)
+				h.Reset()
+				idCh := make(chan string, 1)
+				done := make(chan drive.Out, 1)
+				go func() {
+					idCh <- goid()
+					var v eval.Value
+					var eerr error
+					pn, site := drive.Fence(func() {
+						// the library call itself: the harness wrappers would drain the channel
+						if mode == 0 {
+							v, eerr = e.Eval(&eval.Ctx{VariableFetcher: f})
+						} else {
+							v, eerr = e.TryEval(&eval.Ctx{VariableFetcher: f})
+						}
+					})
+					done <- drive.Out{Val: v, Err: eerr, Panic: pn, Site: site}
+				}()
+				id := <-idCh
+				var snaps []string
+				var out drive.Out
+				finished := false
+				deadline := time.Now().Add(60 * time.Second)
+				for !finished {
+					select {
+					case out = <-done:
+						finished = true
+					default:
+					}
+					if finished {
+						break
+					}
+					if st := goState(id); st == "chan send" {
+						blockedSends++
+						ev := <-e.EventChan
+						snaps = append(snaps, deepCopyEvent(ev))
+					} else {
+						runtime.Gosched()
+					}
+					if time.Now().After(deadline) {
+						r.Capped("a C12 slow-consumer run did not finish within its horizon")
+						return nil, drive.Out{}, false
+					}
+				}
+				for len(e.EventChan) > 0 {
+					snaps = append(snaps, deepCopyEvent(<-e.EventChan))
+				}
+				runs++
+				return snaps, out, true
+			}
+			ref, want, ok := one(4096)
+			if !ok {
+				continue
+			}
+			for _, capacity := range []int{0, 1, 2, 3} {
+				got, out, ok := one(capacity)
+				if !ok {
+					continue
+				}
+				d := caseDesc(p.src, p.opt, p.vars, p.vals, nil, map[string]interface{}{"entry": []string{"Eval", "TryEval"}[mode], "channel_capacity": capacity, "events_with_large_buffer": len(ref), "events_received": len(got)})
+				if !drive.SameOutcome(out, want) {
+					r.Violate("result-depends-on-consumer", p.src+p.opt.String(), sprintf("with a channel of capacity %d and a slow consumer the result is %s instead of %s", capacity, out, want), d)
+				}
+				if !reflect.DeepEqual(ref, got) {
+					r.Violate("events-lost", p.src+p.opt.String(), sprintf("a slow consumer on a channel of capacity %d receives %d events, the evaluation produced %d (events are missing or differ)", capacity, len(got), len(ref)), d)
+				}
+			}
+		}
+	}
+	r.Cov["slow_consumer_runs"] = runs
+	r.Cov["slow_consumer_sends_observed_blocked"] = blockedSends
+	r.Add(0, runs, runs, runs, 0)
+}
+
+// c12LibraryCtx: contexts built by the library itself (NewCtxFromVars picks
+// the fetcher from the config): for every corpus program x every single
+// variable left unbound (and none) x undefined-variable mode off/on x
+// {Eval, TryEval}: plain, ReportEvent and Debug compilations, each with the
+// context NewCtxFromVars builds for ITS config, give the same outcome.
+func c12LibraryCtx(r *rep.Run) {
+	h := drive.NewHarness()
+	var n int64
+	for _, p := range c12Corpus() {
+		if p.opt.Events != 1 {
+			continue // the corpus lists each program once per event mode; modes are iterated here
+		}
+		for undef := 0; undef < 2; undef++ {
+			for omit := -1; omit < len(p.vars); omit++ {
+				vals := map[string]interface{}{}
+				for i, v := range p.vars {
+					if i != omit {
+						vals[v.Name] = p.vals[i]
+					}
+				}
+				for mode := 0; mode < 2; mode++ {
+					var outs [3]drive.Out
+					for ev := 0; ev < 3; ev++ {
+						o := p.opt
+						o.Events = ev
+						cfg := h.NewConfig(p.vars, o)
+						if undef == 1 {
+							cfg.CompileOptions[eval.AllowUndefinedVariable] = true
+						}
+						e, err := h.Compile(cfg, p.src, 4096)
+						if err != nil {
+							outs[ev] = drive.Out{Err: err}
+							continue
+						}
+						h.Reset()
+						var v eval.Value
+						var eerr error
+						pn, site := drive.Fence(func() {
+							ctx := eval.NewCtxFromVars(cfg, vals)
+							if mode == 0 {
+								v, eerr = e.Eval(ctx)
+							} else {
+								v, eerr = e.TryEval(ctx)
+							}
+						})
+						n++
+						outs[ev] = drive.Out{Val: v, Err: eerr, Panic: pn, Site: site}
+					}
+					for ev := 1; ev < 3; ev++ {
+						if !drive.SameOutcome(outs[ev], outs[0]) {
+							omitted := "none"
+							if omit >= 0 {
+								omitted = p.vars[omit].Name
+							}
+							r.Violate("result-changed-by-events", p.src+fmt.Sprint(ev, undef), sprintf("with the context NewCtxFromVars builds, %s gives %s instead of %s (unbound variable: %s)", []string{"", "ReportEvent", "Debug"}[ev], outs[ev], outs[0], omitted),
+								map[string]interface{}{"source": p.src, "options": p.opt.String(), "bound": fmt.Sprint(vals), "allow_undefined_variable": undef == 1, "entry": []string{"Eval", "TryEval"}[mode]})
+						}
+					}
+				}
+			}
+		}
+	}
+	r.Cov["library_context_runs"] = n
+	r.Add(0, n, n, n, 0)
 }
